@@ -12,12 +12,14 @@ import (
 
 var Discard = io.Discard
 
-func ReadAll(r io.Reader) ([]byte, error)                        { return io.ReadAll(r) }
-func NopCloser(r io.Reader) io.ReadCloser                        { return io.NopCloser(r) }
-func ReadFile(name string) ([]byte, error)                       { return os.ReadFile(name) }
-func WriteFile(name string, data []byte, perm fs.FileMode) error { return os.WriteFile(name, data, perm) }
-func TempFile(dir, pattern string) (*os.File, error)             { return os.CreateTemp(dir, pattern) }
-func TempDir(dir, pattern string) (string, error)                { return os.MkdirTemp(dir, pattern) }
+func ReadAll(r io.Reader) ([]byte, error)  { return io.ReadAll(r) }
+func NopCloser(r io.Reader) io.ReadCloser  { return io.NopCloser(r) }
+func ReadFile(name string) ([]byte, error) { return os.ReadFile(name) }
+func WriteFile(name string, data []byte, perm fs.FileMode) error {
+	return os.WriteFile(name, data, perm)
+}
+func TempFile(dir, pattern string) (*os.File, error) { return os.CreateTemp(dir, pattern) }
+func TempDir(dir, pattern string) (string, error)    { return os.MkdirTemp(dir, pattern) }
 
 func ReadDir(dirname string) ([]fs.FileInfo, error) {
 	f, err := os.Open(dirname)
